@@ -243,7 +243,7 @@ theorem subscribe_new_replay {sv : Server} (hinv : Inv sv) {sid : Nat} {s : Sess
           · exact absurd ⟨w, (hV w).2 ⟨n2, hw0, hc, h1, hvw⟩, n2, hc, hpw⟩ hhit
   -- transfer to the state after `DoGetData` and the session record there
   intro p d
-  rw [matches_core hcD, matches_congr (a := C) (b := doGetData C sid [(path, f)])
+  rw [matches_core (vcore_of_core hcD), matches_congr (a := C) (b := doGetData C sid [(path, f)])
     (fun w => by rw [getNode_congr hroot]) sC p d]
   exact key p d
 
